@@ -276,3 +276,115 @@ def _chk_chromsort(args, res, old):
 
 contract("skgenome/chromsort.py::sorter_chrom", params=dict(dummy=Int), bounded=True, gen=_gen_chromsort,
          call=lambda fn, a: None, props=("C08",), checks=[("natural_order", _chk_chromsort)])
+
+
+# ----------------------------------------------------------------------------- deductive: coordinate conventions of writers/readers
+# The text/tokenising side (pandas read_csv, to_csv) is assumed; what is proved is what each reader/writer does to the
+# coordinates it was handed.  `view_parsed` is the table pandas parsed from the file (unconstrained).
+from .c_call import CHROM, GENE       # noqa: E402
+
+_IVT = TabT(opt=("gene", "strand"), index="any", chromosome=CHROM, start=Int, end=Int, gene=GENE, strand=Str)
+
+contract(
+    "skgenome/tabio/picard.py::write_interval",
+    params=dict(dframe=_IVT),
+    returns=TabT(index="any"),
+    requires=[],
+    ensures=[
+        ("same_rows", "len(result) == len(dframe)"),
+        # interval lists are 1-based closed: start + 1, end unchanged; absent gene/strand columns get "-" and "+"
+        ("one_based_start", "forall(0, len(result), lambda k: result.chromosome[k] == dframe.chromosome[k] and "
+                            "result.start[k] == dframe.start[k] + 1 and result.end[k] == dframe.end[k])"),
+        ("gene_and_strand", "forall(0, len(result), lambda k: result.gene[k] == (dframe.gene[k] if 'gene' in dframe else '-') and "
+                            "result.strand[k] == (dframe.strand[k] if 'strand' in dframe else '+'))"),
+    ],
+    props=("C08",), domain="skip",
+    canaries=[("start_not_shifted", 'dframe["start"] += 1', 'dframe["start"] += 0'),
+              ("input_shifted_in_place", "dframe = dframe.copy()", "dframe = dframe")],
+)
+
+contract(
+    "skgenome/rangelabel.py::to_label",
+    params=dict(row=RecT("Region", chromosome=Str, start=Int, end=Int)),
+    returns=Str, requires=[],
+    ensures=[("one_based_label", "result == row.chromosome + ':' + str(row.start + 1) + '-' + str(row.end)")],
+    props=("C08", "C20"), domain="skip",
+    canaries=[("zero_based", "row.start + 1", "row.start"), ("end_shifted", "{row.end}", "{row.end + 1}")],
+)
+
+contract(
+    "skgenome/tabio/textcoord.py::write_text",
+    params=dict(dframe=TabT(index="any", chromosome=Str, start=Int, end=Int)),
+    returns=SeriesT(Str, like="dframe"), requires=[],
+    ensures=[("one_label_per_row", "forall(0, len(result), lambda k: result[k] == dframe.chromosome[k] + ':' + "
+                                   "str(dframe.start[k] + 1) + '-' + str(dframe.end[k]))")],
+    props=("C08",), domain="skip",
+    canaries=[("shifted_twice", "dframe.apply(to_label, axis=1)", "dframe.assign(start=dframe.start + 1).apply(to_label, axis=1)")],
+)
+
+contract(
+    "skgenome/tabio/seg.py::format_seg",
+    params=dict(dframe=TabT(opt=("probes",), index="any", chromosome=CHROM, start=Int, end=Int, gene=GENE, log2=Real, probes=Int),
+                sample_id=Str, chrom_ids=Lit(False)),
+    returns=TabT(index="any"), requires=[],
+    ensures=[
+        ("same_rows", "len(result) == len(dframe)"),
+        # SEG is 1-based closed: loc.start = start + 1, loc.end = end; every row under the sample id
+        ("seg_columns", "forall(0, len(result), lambda k: result['ID'][k] == sample_id and result['chrom'][k] == dframe.chromosome[k] and "
+                        "result['loc.start'][k] == dframe.start[k] + 1 and result['loc.end'][k] == dframe.end[k] and "
+                        "result['seg.mean'][k] == dframe.log2[k])"),
+        ("num_mark", "'probes' not in dframe or forall(0, len(result), lambda k: result['num.mark'][k] == dframe.probes[k])"),
+    ],
+    props=("C08", "C20"), domain="skip",
+    canaries=[("zero_based", "start=dframe.start + 1", "start=dframe.start"),
+              ("end_as_start", '"end": "loc.end"', '"end": "loc.endx", "start": "loc.end"')],
+)
+
+contract(
+    "skgenome/tabio/bedio.py::write_bed4",
+    params=dict(dframe=TabT(opt=("gene",), index="any", chromosome=CHROM, start=Int, end=Int, gene=GENE, log2=Real)),
+    returns=TabT(index="any"), requires=[],
+    ensures=[
+        ("same_rows", "len(result) == len(dframe)"),
+        # BED keeps 0-based half-open coordinates as they are
+        ("coordinates_unchanged", "forall(0, len(result), lambda k: result.chromosome[k] == dframe.chromosome[k] and "
+                                  "result.start[k] == dframe.start[k] and result.end[k] == dframe.end[k] and "
+                                  "result.gene[k] == (dframe.gene[k] if 'gene' in dframe else '-'))"),
+    ],
+    props=("C08",), domain="skip",
+    canaries=[("one_based", 'dframe = dframe.copy()', 'dframe = dframe.assign(start=dframe.start + 1)')],
+)
+
+_IL_TYPES = dict(chromosome=CHROM, start=Int, end=Int, strand=Str, gene=GENE)
+contract(
+    "skgenome/tabio/picard.py::read_interval",
+    params=dict(infile=Str),
+    returns=TabT(index="range"), requires=[],
+    ghost=dict(csv_types=_IL_TYPES),
+    ensures=[
+        ("same_rows", "len(result) == len(view_parsed)"),
+        # interval lists are 1-based closed: the parsed start moves down by one, the end stays
+        ("zero_based_half_open", "forall(0, len(result), lambda k: result.chromosome[k] == view_parsed.chromosome[k] and "
+                                 "result.start[k] == view_parsed.start[k] - 1 and result.end[k] == view_parsed.end[k] and "
+                                 "result.gene[k] == view_parsed.gene[k])"),
+    ],
+    props=("C08",), domain="skip",
+    canaries=[("not_shifted", 'dframe["start"] -= 1', 'dframe["start"] -= 0'), ("end_shifted_too", 'dframe["start"] -= 1', 'dframe["start"] -= 1; dframe["end"] -= 1')],
+)
+
+contract(
+    "skgenome/tabio/picard.py::read_picard_hs",
+    params=dict(infile=Str),
+    returns=TabT(index="range"), requires=[],
+    ghost=dict(csv_types={"chrom": CHROM, "start": Int, "end": Int, "length": Int, "name": GENE, "%gc": Real,
+                          "mean_coverage": Real, "normalized_coverage": Real}),
+    ensures=[
+        ("same_rows", "len(result) == len(view_parsed)"),
+        ("zero_based_half_open", "forall(0, len(result), lambda k: result.chromosome[k] == view_parsed.chrom[k] and "
+                                 "result.start[k] == view_parsed.start[k] - 1 and result.end[k] == view_parsed.end[k] and "
+                                 "result.gene[k] == view_parsed.name[k] and result.depth[k] == view_parsed.mean_coverage[k])"),
+        ("length_column_dropped", "'length' not in result"),
+    ],
+    props=("C08",), domain="skip",
+    canaries=[("not_shifted", 'dframe["start"] -= 1', 'dframe["start"] -= 0')],
+)
